@@ -7,6 +7,7 @@ import RbpfModel.Model.Insn
 import RbpfModel.Model.Builder
 import RbpfModel.Model.DriveExec
 import RbpfModel.Model.DriveText
+import RbpfModel.Model.DriveHelpers
 open Rbpf Rbpf.Hex
 
 def insnStr (i : Insn) : String :=
@@ -81,6 +82,7 @@ def handle (toks : List String) : String :=
   | ["asm", t, _want] => Drive.handleAsm t
   | ["dis", p] => Drive.handleDis p
   | ["rt", p] => Drive.handleRt p
+  | "helper" :: rest => Drive.handleHelper rest
   | ["verify", prog] => Drive.handleVerify prog
   | "exec" :: rest => Drive.handleExec rest
   | _ => "bad-op"
